@@ -88,6 +88,9 @@ class ParserFactory:
         assert not self.exhausted, 'Must call get_parser() to reset state.'
         self.path = path
         parsed_data = self.yacc.parse(data, lexer=self.lexer, debug=self.debug)
+        if parsed_data is None:
+            # Parsing was given up after an error, which has been recorded.
+            parsed_data = []
         # It generally makes sense for lexer errors to come first, because
         # those can be the root of parser errors. Also, since we only show one
         # error max right now, it's best to show the lexing one.
@@ -866,7 +869,11 @@ class ParserFactory:
 
     # Called by the parser whenever a token doesn't match any rule.
     def p_error(self, token):
-        assert token is not None, "Unknown error, please report this."
+        if token is None:
+            # The text ended in the middle of a definition.
+            self.errors.append(
+                ('Unexpected end of file.', self.lexer.lex.lineno, self.path))
+            return
         logger.debug('Unexpected %s(%r) at line %d',
                      token.type,
                      token.value,
